@@ -297,7 +297,7 @@ Qed.
 
 Definition idle (y : job) : Prop := j_state y <> Creating /\ j_state y <> Running.
 
-Lemma jrel_update_job P l0 st o n :
+Lemma jrel_update_job (P : job -> Prop) l0 st o n :
   jrel P l0 (jobs st) -> P n -> (exists x, (In x l0 \/ In x (jobs st)) /\ static_eq x n) -> jrel P l0 (jobs (update_job st o n)).
 Proof.
   intros R Pn (x & [Hx|Hx] & Sx); rewrite update_job_jobs; [apply jrel_replace_orig | apply jrel_replace_cur]; eauto.
@@ -416,6 +416,56 @@ Definition mc_finish (s3 : state) (x : job) (b j a : Z) (ns : jstate) (total : Z
   let s7 := finish_groups s6 b (j_group x) in
   release_children s7 b j (jstate_eqb ns Success).
 
+(* the attempt bookkeeping of mark_job_complete (copied from [do_mark_complete]) *)
+Definition mc_s3 (s1 : state) (x : job) (b j a i : Z) (start endt : option Z) (reason : Z) : state :=
+  let cur := if a =? -1 then None else find_attempt s1 b j a in
+  let cur_end := match cur with Some c => a_end c | None => None end in
+  let s2 := match cur with
+            | Some c => update_attempt s1 c (c <| a_start := start |> <| a_rollup := endt |> <| a_end := endt |> <| a_reason := Some reason |>)
+            | None => s1 end in
+  let give := inst_live (inst_state s2 i) && match cur_end with None => true | Some _ => false end in
+  if give then match find_inst s2 i with
+               | Some y => s2 <| insts ::= replace_inst (y <| i_free := i_free y + j_cores x |>) |>
+               | None => s2 end else s2.
+
+Lemma mc_s3_core s1 x b j a i st en rs : same_core s1 (mc_s3 s1 x b j a i st en rs).
+Proof.
+  unfold mc_s3. cbv zeta.
+  match goal with |- same_core s1 (if _ then match _ with Some _ => ?s2 <| insts ::= _ |> | None => _ end else _) =>
+    assert (C2 : same_core s1 s2) by (destruct (if a =? -1 then None else find_attempt s1 b j a); core_step) end.
+  match goal with |- context [if ?c then _ else _] => destruct c end; [|exact C2].
+  match goal with |- context [match ?c with Some _ => _ | None => _ end] => destruct c end; [|exact C2].
+  eapply same_core_trans; [exact C2 | apply same_core_insts].
+Qed.
+
+Definition mc_stale (x : job) (a : Z) : bool := match j_attempt x with Some e => negb (a =? -1) && negb (e =? a) | None => false end.
+Definition mc_active (x : job) : bool := jstate_eqb (j_state x) Ready || jstate_eqb (j_state x) Creating || jstate_eqb (j_state x) Running.
+
+Lemma do_mark_complete_unfold s b j a i ns st en rs :
+  fst (do_mark_complete s b j a i ns st en rs) =
+  match find_job s b j with
+  | None => s
+  | Some x =>
+      match (if a =? -1 then Some (s, 0) else add_attempt s b j a i (j_cores x)) with
+      | None => s
+      | Some (s1, _) =>
+          let s3 := mc_s3 s1 x b j a i st en rs in
+          if mc_stale x a then s3
+          else if mc_active x then mc_finish s3 x b j a ns (match find_batch s b with Some bt => b_njobs bt | None => 0 end)
+          else s3
+      end
+  end.
+Proof.
+  unfold do_mark_complete, mc_stale, mc_active. destruct (find_job s b j) as [x|]; [|destruct (a =? -1); reflexivity].
+  lazymatch goal with |- context [match ?e with Some _ => _ | None => (s, sql_error 1452) end] => destruct e as [[s1 d0]|] end; [|reflexivity].
+  destruct (match j_attempt x with Some e => negb (a =? -1) && negb (e =? a) | None => false end).
+  reflexivity.
+  destruct (jstate_eqb (j_state x) Ready || jstate_eqb (j_state x) Creating || jstate_eqb (j_state x) Running).
+  (unfold mc_finish, mc_s3; cbv zeta; cbn [fst]).
+  reflexivity.
+  destruct (terminal (j_state x)); reflexivity.
+Qed.
+
 Lemma do_mark_complete_shape s b j a i ns st en rs :
   let s' := fst (do_mark_complete s b j a i ns st en rs) in
   same_core s s' \/
@@ -423,24 +473,313 @@ Lemma do_mark_complete_shape s b j a i ns st en rs :
                (j_state x = Ready \/ j_state x = Creating \/ j_state x = Running) /\
                s' = mc_finish s3 x b j a ns (match find_batch s b with Some bt => b_njobs bt | None => 0 end).
 Proof.
-  cbv zeta. unfold do_mark_complete. destruct (find_job s b j) as [x|] eqn:Fx.
-  2:{ left. destruct (a =? -1); core_step. }
-  match goal with |- context [match ?e with Some _ => _ | None => (s, sql_error 1452) end] => destruct e as [[s1 d0]|] eqn:Aa end;
-    [|left; core_step].
+  intros s'. subst s'. rewrite do_mark_complete_unfold.
+  destruct (find_job s b j) as [x|] eqn:Fx; [|left; core_step].
+  destruct (if a =? -1 then Some (s, 0) else add_attempt s b j a i (j_cores x)) as [[s1 d0]|] eqn:Aa; [|left; core_step].
   assert (C1 : same_core s s1).
   { destruct (a =? -1); [injection Aa as <- _; core_step | core_step]. }
-  cbv zeta.
-  match goal with |- context [update_job ?st x _] => set (s3 := st) end.
-  assert (C : same_core s s3).
-  { subst s3. eapply same_core_trans; [exact C1|].
-    match goal with |- same_core s1 (if _ then match _ with Some _ => ?s2 <| insts ::= _ |> | None => _ end else _) =>
-      assert (C2 : same_core s1 s2) by (destruct (if a =? -1 then None else find_attempt s1 b j a); core_step) end.
-    match goal with |- context [if ?c then _ else _] => destruct c end; [|exact C2].
-    match goal with |- context [match ?c with Some _ => _ | None => _ end] => destruct c end; [|exact C2].
-    eapply same_core_trans; [exact C2 | apply same_core_insts]. }
-  match goal with |- context [if ?c then (s3, _) else _] => destruct c end; [left; exact C|].
-  match goal with |- context [if ?c then _ else _] => destruct c eqn:St end.
-  - right. exists x, s3. split; [reflexivity|]. split; [exact C|]. split; [|reflexivity].
-    apply orb_true_iff in St. destruct St as [St|St]; [apply orb_true_iff in St; destruct St as [St|St]|]; apply jstate_eqb_eq in St; auto.
-  - left. destruct (terminal (j_state x)); exact C.
+  pose proof (mc_s3_core s1 x b j a i st en rs) as C3.
+  pose proof (same_core_trans _ _ _ C1 C3) as C.
+  cbv zeta. destruct (mc_stale x a); [left; exact C|].
+  destruct (mc_active x) eqn:St; [|left; exact C].
+  right. exists x, (mc_s3 s1 x b j a i st en rs). split; [reflexivity|]. split; [exact C|]. split; [|reflexivity].
+  unfold mc_active in St.
+  apply orb_true_iff in St. destruct St as [St|St]; [apply orb_true_iff in St; destruct St as [St|St]|]; apply jstate_eqb_eq in St; auto.
+Qed.
+
+Lemma jrel_fold {A} (P : job -> Prop) l0 (g : state -> A -> state) l :
+  (forall st a, jrel P l0 (jobs st) -> jrel P l0 (jobs (g st a))) ->
+  forall st, jrel P l0 (jobs st) -> jrel P l0 (jobs (fold_left g l st)).
+Proof. intros H. induction l as [|a l IH]; intros st R; cbn [fold_left]; [exact R | apply IH, H, R]. Qed.
+
+Lemma release_children_jobs (P : job -> Prop) l0 st b j succ :
+  (forall y, idle y -> P y) -> jrel P l0 (jobs st) -> jrel P l0 (jobs (release_children st b j succ)).
+Proof.
+  intros HP R. unfold release_children. cbv zeta. apply jrel_fold; [|exact R].
+  intros st' c R'. destruct (find_job st' b c) as [x|] eqn:Fx; [|exact R'].
+  match goal with |- context [if ?c then _ else _] => destruct c end; [exact R'|].
+  apply jrel_update_job; [exact R'| |].
+  - apply HP. split; cbn; destruct (j_npp x =? 1); discriminate.
+  - exists x. split; [right; apply find_jkey_sound in Fx; tauto | solve_static].
+Qed.
+
+Lemma finish_groups_jobs s b g : jobs (finish_groups s b g) = jobs s.
+Proof. reflexivity. Qed.
+
+Lemma mc_finish_jobs (P : job -> Prop) l0 s3 x b j a ns total :
+  (forall y, idle y -> P y) -> terminal ns = true -> In x (jobs s3) ->
+  jrel P l0 (jobs s3) -> jrel P l0 (jobs (mc_finish s3 x b j a ns total)).
+Proof.
+  intros HP T Hx R. unfold mc_finish. cbv zeta. apply release_children_jobs; [exact HP|].
+  rewrite finish_groups_jobs.
+  match goal with |- context [if ?c then _ else _] => destruct c end; scbn;
+    (apply jrel_update_job; [exact R | apply HP; split; cbn; intros E; rewrite E in T; discriminate | exists x; split; [right; exact Hx | solve_static]]).
+Qed.
+
+Lemma do_mark_complete_jobs s b j a i ns st en rs :
+  terminal ns = true -> jrel idle (jobs s) (jobs (fst (do_mark_complete s b j a i ns st en rs))).
+Proof.
+  intros T. destruct (do_mark_complete_shape s b j a i ns st en rs) as [C | (x & s3 & Fx & C & _ & E)].
+  - rewrite (sc_jobs _ _ C). apply jrel_refl.
+  - rewrite E. rewrite <- (sc_jobs _ _ C) at 1. apply mc_finish_jobs; auto using jrel_refl.
+    rewrite (sc_jobs _ _ C). apply find_jkey_sound in Fx. tauto.
+Qed.
+
+(* ------------------------------------------------------------------ Commit *)
+
+Lemma recompute_job_static s x : static_eq x (recompute_job s x).
+Proof. unfold recompute_job. cbv zeta. solve_static. Qed.
+
+Lemma recompute_job_idle s x : idle (recompute_job s x).
+Proof. unfold recompute_job. cbv zeta. split; cbn; match goal with |- context [if ?c then _ else _] => destruct c end; discriminate. Qed.
+
+Lemma commit_user_res_fold_core (f : state -> list Z * list Z -> state) l s :
+  (forall st kv, f st kv = st \/ exists g, f st kv = st <| user_res ::= g |>) ->
+  let s' := fold_left f l s in
+  batches s' = batches s /\ updates s' = updates s /\ groups s' = groups s /\ ancestors s' = ancestors s /\ marks s' = marks s /\
+  jobs s' = jobs s /\ parents s' = parents s /\ cancellable s' = cancellable s /\ staging s' = staging s /\ next_batch s' = next_batch s /\
+  attempts s' = attempts s /\ insts s' = insts s.
+Proof.
+  intros H. revert s. induction l as [|kv l IH]; intros s; cbn [fold_left].
+  - repeat split; reflexivity.
+  - specialize (IH (f s kv)). cbv zeta in IH. destruct IH as (I1&I2&I3&I4&I5&I6&I7&I8&I9&I10&I11&I12).
+    destruct (H s kv) as [E | (g & E)]; rewrite E in *; repeat split; assumption.
+Qed.
+
+Lemma do_commit_jobs s b u user : jrel idle (jobs s) (jobs (fst (do_commit s b u user))).
+Proof.
+  unfold do_commit. destruct (find_batch s b) as [bt|]; [|apply jrel_refl].
+  destruct (find_update s b u) as [up0|]; [|apply jrel_refl].
+  match goal with |- context [if ?c then _ else _] => destruct c end; [apply jrel_refl|].
+  destruct (marked s b 0); [apply jrel_refl|].
+  unfold do_commit_proc. destruct (find_update s b u) as [up|]; [|apply jrel_refl].
+  destruct (u_committed up); [apply jrel_refl|]. cbv zeta.
+  match goal with |- context [if ?c then _ else _] => destruct c end; [apply jrel_refl|].
+  match goal with |- context [if ?c then _ else _] => destruct c end; [apply jrel_refl|].
+  match goal with |- context [fold_left ?f (staging s) ?s3] => set (s4 := fold_left f (staging s) s3) end.
+  assert (J4 : jobs s4 = jobs s).
+  { subst s4. match goal with |- context [fold_left ?f (staging s) ?s3] => pose proof (commit_user_res_fold_core f (staging s) s3) as F end.
+    cbv zeta in F. destruct F as (_&_&_&_&_&F&_); [|exact F].
+    intros st [k v]. destruct k as [|b' [|u' [|g' [|ic [|]]]]]; auto. destruct v as [|v0 [|nr [|rc [|]]]]; auto.
+    match goal with |- context [if ?c then _ else _] => destruct c end; eauto. }
+  destruct (u =? 1); scbn; [rewrite J4; apply jrel_refl|].
+  rewrite <- J4 at 1.
+  match goal with |- context [fold_left ?g (map ?h ?targets) s4] => set (tg := targets); set (g' := g); set (h' := h) end.
+  assert (G : forall l st, (forall x, In x l -> In x (jobs s4)) -> jrel idle (jobs s4) (jobs st) -> jrel idle (jobs s4) (jobs (fold_left g' (map h' l) st))).
+  { induction l as [|x l IH]; intros st Hl R; cbn [fold_left map]; [exact R|].
+    apply IH; [intros x' Hx'; apply Hl; right; exact Hx'|].
+    subst g' h'. cbn [fst snd]. apply jrel_update_job; [exact R | apply recompute_job_idle|].
+    exists x. split; [left; apply Hl; left; reflexivity | apply recompute_job_static]. }
+  apply G; [|apply jrel_refl]. subst tg. intros x Hx. apply filter_In in Hx. tauto.
+Qed.
+
+(* ------------------------------------------------------------------ CreateJobs *)
+
+Definition cj_specs (b u : Z) (up : update) (jss : list jspec) : list (job * list Z) :=
+  map (job_of_spec b u (u_start_job up) (u_start_group up)) jss.
+
+Definition cj_insert (s : state) (b : Z) (js : list (job * list Z)) : state :=
+  fold_left stage_job (map fst js)
+    (s <| jobs ::= fun l => l ++ map fst js |>
+       <| parents ::= fun l => l ++ flat_map (fun jp => map (fun p => (b, j_id (fst jp), p)) (snd jp)) js |>).
+
+Lemma insert_verdict_range s b js seen :
+  let v := insert_verdict s b js seen in v = 0 \/ v = 1 \/ v = 2 \/ v = 3.
+Proof.
+  cbv zeta. revert seen. induction js as [|x r IH]; intros seen; cbn [insert_verdict]; [auto|].
+  destruct (group_cancelled s b (j_group x)); [auto|].
+  match goal with |- context [if ?c then _ else _] => destruct c end; [auto|].
+  destruct (find_group s b (j_group x)); [apply IH | auto].
+Qed.
+
+Lemma do_create_jobs_shape s b u user jss :
+  let r := do_create_jobs s b u user jss in
+  fst r = s \/
+  exists up bt, find_update s b u = Some up /\ find_batch s b = Some bt /\ u_committed up = false /\
+                insert_verdict s b (map fst (cj_specs b u up jss)) [] = 0 /\
+                r = (cj_insert s b (cj_specs b u up jss), ok []).
+Proof.
+  cbv zeta. unfold do_create_jobs.
+  destruct (is_nil jss); [left; reflexivity|].
+  destruct (find_update s b u) as [up|]; [|left; reflexivity].
+  destruct (find_batch s b) as [bt|]; [|left; reflexivity].
+  match goal with |- context [if ?c then _ else _] => destruct c end; [left; reflexivity|].
+  destruct (u_committed up) eqn:Cm; [left; reflexivity|].
+  cbv zeta. destruct jss as [|j0 jss']; [left; reflexivity|]. set (jss := j0 :: jss') in *.
+  match goal with |- context [if ?c then _ else _] => destruct c end; [left; reflexivity|].
+  match goal with |- context [if ?c then _ else _] => destruct c end; [left; reflexivity|].
+  fold (cj_specs b u up jss).
+  pose proof (insert_verdict_range s b (map fst (cj_specs b u up jss)) []) as V. cbv zeta in V.
+  destruct V as [V|[V|[V|V]]]; rewrite V; try (left; reflexivity).
+  match goal with |- context [if ?c then _ else _] => destruct c end; [left; reflexivity|].
+  right. exists up, bt. repeat split; auto.
+Qed.
+
+Lemma stage_job_jobs s x : jobs (stage_job s x) = jobs s.
+Proof. reflexivity. Qed.
+
+Lemma cj_insert_jobs s b js : jobs (cj_insert s b js) = jobs s ++ map fst js.
+Proof. unfold cj_insert. rewrite fold_keeps by (intros; apply stage_job_jobs). reflexivity. Qed.
+
+(* verdict 0: every row's group exists and is not cancelled, the keys are new and pairwise distinct *)
+Lemma insert_verdict_ok s b js seen :
+  (forall x, In x js -> j_batch x = b) ->
+  insert_verdict s b js seen = 0 ->
+  Forall (fun x => group_cancelled s b (j_group x) = false /\ find_group s b (j_group x) <> None /\ find_job s b (j_id x) = None
+                   /\ ~ In (j_id x) seen) js /\
+  NoDup (map j_id js).
+Proof.
+  intros Hb. revert seen. induction js as [|x r IH]; intros seen V; cbn [insert_verdict] in V; [split; constructor|].
+  destruct (group_cancelled s b (j_group x)) eqn:Gc; [discriminate|].
+  match type of V with (if ?c then _ else _) = _ => destruct c eqn:Dup end; [discriminate|].
+  destruct (find_group s b (j_group x)) eqn:Fg; [|discriminate].
+  apply orb_false_iff in Dup. destruct Dup as [D1 D2].
+  assert (Hseen : ~ In (j_id x) seen).
+  { intros Hin. assert (E : existsb (Z.eqb (j_id x)) seen = true) by (apply existsb_exists; exists (j_id x); split; [exact Hin | apply Z.eqb_refl]). congruence. }
+  destruct (IH (fun y Hy => Hb y (or_intror Hy)) _ V) as (F & ND). split.
+  - constructor.
+    + repeat split; auto; [congruence | destruct (find_job s b (j_id x)); [discriminate | reflexivity]].
+    + eapply Forall_impl; [|exact F]. cbv beta. intros y (A1 & A2 & A3 & A4). repeat split; auto. intros Hin. apply A4. right. exact Hin.
+  - cbn [map]. constructor; [|exact ND]. intros Hin. apply in_map_iff in Hin. destruct Hin as (y & Ey & Hy).
+    rewrite Forall_forall in F. destruct (F y Hy) as (_ & _ & _ & A4). apply A4. left. symmetry. exact Ey.
+Qed.
+
+Lemma cj_specs_batch b u up jss x : In x (map fst (cj_specs b u up jss)) -> j_batch x = b /\ j_update x = u /\ (j_state x = Ready \/ j_state x = Pending).
+Proof.
+  unfold cj_specs. rewrite map_map. intros H. apply in_map_iff in H. destruct H as (sp & <- & _).
+  unfold job_of_spec. cbn. repeat split. match goal with |- context [if ?c then _ else _] => destruct c end; auto.
+Qed.
+
+(* ------------------------------------------------------------------ the group tree / update list / batch list along a transaction *)
+
+Definition gk (g : group) : Z * Z := (g_batch g, g_id g).
+Definition bkey (x : batch) : Z * Z * Z * Z := (b_id x, b_user x, b_token x, b_bp x).
+Definition ukey (x : update) : list Z := [u_batch x; u_id x; u_token x; u_start_job x; u_njobs x; u_start_group x; u_ngroups x].
+
+(** [same_tree s s']: no group / batch / update was added, the group tree and the cancellation marks are the same. *)
+Record same_tree (s s' : state) : Prop := mk_same_tree {
+  st_marks : marks s' = marks s;
+  st_ancestors : ancestors s' = ancestors s;
+  st_groups : map gk (groups s') = map gk (groups s);
+  st_batches : map bkey (batches s') = map bkey (batches s);
+  st_updates : map ukey (updates s') = map ukey (updates s);
+  st_next_batch : next_batch s' = next_batch s }.
+
+Lemma same_tree_refl s : same_tree s s.
+Proof. constructor; reflexivity. Qed.
+Lemma same_tree_trans s1 s2 s3 : same_tree s1 s2 -> same_tree s2 s3 -> same_tree s1 s3.
+Proof. intros [] []. constructor; congruence. Qed.
+Lemma same_core_tree s s' : same_core s s' -> same_tree s s'.
+Proof. intros []. constructor; congruence. Qed.
+Lemma same_tree_update_job s o n : same_tree s (update_job s o n).
+Proof. constructor; autorewrite with frame; reflexivity. Qed.
+Lemma same_tree_fold {A} (f : state -> A -> state) l s :
+  (forall st x, same_tree st (f st x)) -> same_tree s (fold_left f l s).
+Proof. apply fold_rel; [apply same_tree_refl | apply same_tree_trans]. Qed.
+Lemma same_tree_groups_map s f : (forall g, gk (f g) = gk g) -> same_tree s (s <| groups ::= map f |>).
+Proof. intros H. constructor; scbn; try reflexivity. rewrite map_map. apply map_ext. exact H. Qed.
+Lemma same_tree_batches_map s f : (forall g, bkey (f g) = bkey g) -> same_tree s (s <| batches ::= map f |>).
+Proof. intros H. constructor; scbn; try reflexivity. rewrite map_map. apply map_ext. exact H. Qed.
+Lemma same_tree_updates_map s f : (forall g, ukey (f g) = ukey g) -> same_tree s (s <| updates ::= map f |>).
+Proof. intros H. constructor; scbn; try reflexivity. rewrite map_map. apply map_ext. exact H. Qed.
+
+(* lookups that only depend on the tree *)
+Section TreeLookups.
+  Variables (s s' : state).
+  Hypothesis H : same_tree s s'.
+  Lemma st_anc_rows b g : anc_rows s' b g = anc_rows s b g.
+  Proof. unfold anc_rows. rewrite (st_ancestors _ _ H). reflexivity. Qed.
+  Lemma st_anc_ids b g : anc_ids s' b g = anc_ids s b g.
+  Proof. unfold anc_ids. rewrite st_anc_rows. reflexivity. Qed.
+  Lemma st_marked b g : marked s' b g = marked s b g.
+  Proof. unfold marked. rewrite (st_marks _ _ H). reflexivity. Qed.
+  Lemma st_group_cancelled b g : group_cancelled s' b g = group_cancelled s b g.
+  Proof.
+    unfold group_cancelled, n_cancelled_anc. rewrite st_anc_ids.
+    erewrite filter_ext; [reflexivity|]. intros a. apply st_marked.
+  Qed.
+End TreeLookups.
+
+Ltac key_side := intros ?; repeat lazymatch goal with |- _ (if ?c then _ else _) = _ => destruct c end; reflexivity.
+
+(* peel the outermost state transformer of [E] in a goal [same_tree s E] *)
+Ltac tree :=
+  lazymatch goal with
+  | |- same_tree ?s ?s => apply same_tree_refl
+  | |- same_tree ?s (update_job ?st _ _) => apply (same_tree_trans s st); [tree | apply same_tree_update_job]
+  | |- same_tree ?s (update_attempt ?st _ _) => apply (same_tree_trans s st); [tree | apply same_core_tree, same_core_update_attempt]
+  | |- same_tree ?s (set_times ?st _ _ _ _) => apply (same_tree_trans s st); [tree | apply same_core_tree, same_core_set_times]
+  | |- same_tree ?s (finish_groups ?st _ _) =>
+      apply (same_tree_trans s st); [tree | unfold finish_groups; apply same_tree_groups_map; key_side]
+  | |- same_tree ?s (fold_left ?g ?l ?st) =>
+      apply (same_tree_trans s st); [tree | apply same_tree_fold; intros ? ?; tree]
+  | |- same_tree ?s (set groups (map _) ?st) =>
+      apply (same_tree_trans s st); [tree | apply same_tree_groups_map; key_side]
+  | |- same_tree ?s (set batches (map _) ?st) =>
+      apply (same_tree_trans s st); [tree | apply same_tree_batches_map; key_side]
+  | |- same_tree ?s (set updates (map _) ?st) =>
+      apply (same_tree_trans s st); [tree | apply same_tree_updates_map; key_side]
+  | |- same_tree ?s (set _ _ ?st) =>
+      apply (same_tree_trans s st); [tree | constructor; reflexivity]
+  | |- same_tree ?s (fst (_, _)) => cbn [fst]; tree
+  | |- same_tree ?s (let _ := _ in _) => cbv zeta; tree
+  | |- same_tree ?s (let '(_, _) := ?p in _) => destruct p; tree
+  | |- same_tree ?s (fst (let '(_, _) := ?p in _)) => destruct p; tree
+  | |- same_tree ?s (fst (match ?c with _ => _ end)) => destruct c eqn:?; tree
+  | |- same_tree ?s (match ?c with _ => _ end) => destruct c eqn:?; tree
+  | |- same_tree ?s ?st => try (apply same_core_tree; assumption)
+  end.
+
+Lemma release_children_tree s b j succ : same_tree s (release_children s b j succ).
+Proof. unfold release_children. cbv zeta. tree. Qed.
+
+Lemma mc_finish_tree s3 x b j a ns total : same_tree s3 (mc_finish s3 x b j a ns total).
+Proof.
+  unfold mc_finish. cbv zeta.
+  match goal with |- same_tree _ (release_children ?st _ _ _) => apply (same_tree_trans _ st); [|apply release_children_tree] end.
+  tree.
+Qed.
+
+Lemma cj_insert_tree s b js : same_tree s (cj_insert s b js).
+Proof.
+  unfold cj_insert. match goal with |- same_tree s (fold_left _ _ ?st) => apply (same_tree_trans s st) end.
+  - constructor; reflexivity.
+  - apply same_tree_fold. intros st x. unfold stage_job. constructor; reflexivity.
+Qed.
+
+Lemma do_commit_tree s b u user : same_tree s (fst (do_commit s b u user)).
+Proof. unfold do_commit, do_commit_proc. tree. Qed.
+
+Lemma do_deactivate_tree s n r t : same_tree s (fst (do_deactivate s n r t)).
+Proof. unfold do_deactivate. tree. Qed.
+
+Lemma do_unschedule_tree s b j a i t r : same_tree s (fst (do_unschedule s b j a i t r)).
+Proof. unfold do_unschedule. tree. Qed.
+
+Lemma step_same_tree s o :
+  match o with
+  | CreateBatch _ _ _ _ | CreateUpdate _ _ _ _ _ | CreateGroups _ _ _ _ | CancelGroup _ _ | DeleteBatch _ => True
+  | _ => same_tree s (fst (step s o))
+  end.
+Proof.
+  destruct o; try exact I; cbn [step].
+  - destruct (do_create_jobs_shape s b u user js) as [E | (up & bt & _ & _ & _ & _ & E)]; rewrite E; [apply same_tree_refl | apply cj_insert_tree].
+  - apply do_commit_tree.
+  - apply same_core_tree, do_new_instance_core.
+  - apply same_core_tree, do_activate_core.
+  - apply do_deactivate_tree.
+  - apply same_core_tree, do_mark_deleted_core.
+  - destruct (do_schedule_shape s b j att inst) as [C | (x & s1 & _ & C & _ & _ & E)]; [apply same_core_tree, C|].
+    rewrite E. eapply same_tree_trans; [apply same_core_tree, C | apply same_tree_update_job].
+  - apply do_unschedule_tree.
+  - destruct (do_mcs_shape true s b j att inst time) as [C | (x & s1 & _ & C & _ & _ & E)]; [apply same_core_tree, C|].
+    rewrite E. eapply same_tree_trans; [apply same_core_tree, C | apply same_tree_update_job].
+  - destruct (do_mcs_shape false s b j att inst time) as [C | (x & s1 & _ & C & _ & _ & E)]; [apply same_core_tree, C|].
+    rewrite E. eapply same_tree_trans; [apply same_core_tree, C | apply same_tree_update_job].
+  - destruct (do_mark_complete_shape s b j att inst new_state start endt reason) as [C | (x & s3 & _ & C & _ & E)]; [apply same_core_tree, C|].
+    rewrite E. eapply same_tree_trans; [apply same_core_tree, C | apply mc_finish_tree].
+  - apply same_core_tree, do_add_resources_core.
+  - apply same_core_tree, do_billing_update_core.
+  - unfold do_cleanup_staging. tree.
+  - unfold do_cleanup_cancellable. tree.
 Qed.
